@@ -949,6 +949,10 @@ def coq_bool(b):
     return "true" if b else "false"
 
 
+def coq_xf(flags):
+    return "(" + ", ".join(coq_bool(f in flags) for f in ("omit_none", "by_alias", "dialect")) + ")"
+
+
 def coq_env(schema):
     cs = []
     for c in range(len(schema["classes"])):
@@ -959,7 +963,7 @@ def coq_env(schema):
         tag = f"(Some {c})" if k.get("tag") else "None"
         disc = {None: "None", False: "None", "field": "(Some true)", True: "(Some true)", "nofield": "(Some false)"}[k.get("disc")]
         cs.append(f"Build_cinfo [{fl}] " + " ".join(coq_bool(has_hook(schema, c, h)) for h in HOOKS)
-                  + " " + coq_bool(ctx_on(schema, c)) + f" {par} {tag} {disc}")
+                  + " " + coq_bool(ctx_on(schema, c)) + f" {par} {tag} {disc} " + coq_xf(class_flags(schema, c)))
     return "[" + ";\n      ".join(cs) + "]"
 
 
